@@ -253,7 +253,30 @@ def r5(ctx):
         plist = {"items": "list(%s.parameters.items())" % sig, "values": "list(%s.parameters.values())" % sig}
         allow = lambda t: t in ("inspect.signature", "list") or t.endswith(".parameters.items") or t.endswith(".parameters.values")
 
+        du = defuse_of(fi)
+
+        def unpacked(e, at):
+            """names bound by `a, b, c = E` (no star) stand for list(E)[k]"""
+            node = cfg.node_of(at)
+
+            class _U(ast.NodeTransformer):
+                def visit_Name(self, nm):
+                    if not isinstance(nm.ctx, ast.Load) or node is None:
+                        return nm
+                    defs = du.reaching(nm.id, node.id)
+                    if len(defs) == 1 and isinstance(defs[0][1], tuple) and defs[0][1][0] == "unpack" and isinstance(defs[0][1][1], int) and isinstance(defs[0][1][2], ast.AST):
+                        stmt = cfg.nodes[defs[0][0]].ast
+                        tg = stmt.targets[0] if isinstance(stmt, ast.Assign) and len(stmt.targets) == 1 else None
+                        if isinstance(tg, (ast.Tuple, ast.List)) and not any(isinstance(x, ast.Starred) for x in tg.elts):
+                            src = norm(sym_expr(fi, defs[0][1][2], cfg.nodes[defs[0][0]], allow_calls=allow, depth=8))
+                            return ast.parse("list(%s)[%d]" % (src, defs[0][1][1]), mode="eval").body
+                    return nm
+            return _U().visit(ast.parse(ast.unparse(e), mode="eval").body)
+
         def val(e, at):
+            e2 = unpacked(e, at)
+            if ast.unparse(e2) != ast.unparse(e):
+                return norm(e2)
             return norm(sym_expr(fi, e, cfg.node_of(at), allow_calls=allow, depth=8))
         st = [x for x in walk_own(fi.node) if isinstance(x, ast.Assign) and norm(x.targets[0]) == "%s._event" % mp]
         if not ctx.require("C20.R5", fi, "store of %s._event" % mp, len(st), 1):
